@@ -31,7 +31,7 @@ def interval_of(T, inacc, v1=False):
     return i, div
 
 
-def gen_join_scenario(rng, variant, tier, style=None):
+def gen_join_scenario(rng, variant, tier, style=None, stop=False):
     """variant 0 join v2, 1 unite v2, 2 join v1 (no stop here).  Times: first producer delay odd, later ones even,
     ticker period even, so a tick and a put rarely coincide (the model flags the cases where they do)."""
     v1 = variant == 2
@@ -83,9 +83,13 @@ def gen_join_scenario(rng, variant, tier, style=None):
                          rng.choice([0, 0, 20 * unit, Tm // 2, Tm, 4 * Tm])))
     close_after = rng.choice([2 * unit, 2 * Tm, 6 * Tm + 2 * unit])
     capextra = rng.choice([0, 0, 1, J, 2 * J]) if variant == 1 else 0
-    enc = enc_join(variant, J, nocopy, T, inacc, icap, close_after, -1, prod, cons, capextra=capextra)
+    stop_at = -1
+    if stop and v1:
+        horizon = sum(d for d, _ in prod) + close_after
+        stop_at = rng.randrange(0, max(horizon, 2) + Tm) // 2 * 2 + 7    # an instant that is neither a tick nor a put
+    enc = enc_join(variant, J, nocopy, T, inacc, icap, close_after, stop_at, prod, cons, capextra=capextra)
     meta = {"variant": ["join-v2", "unite-v2", "join-v1"][variant], "J": J, "nocopy": nocopy, "T": T, "inaccuracy": inacc,
-            "interval": ivl, "divider": div, "icap": icap, "close_after": close_after, "prod": prod, "cons": cons, "style": style, "capextra": capextra}
+            "interval": ivl, "divider": div, "icap": icap, "close_after": close_after, "prod": prod, "cons": cons, "style": style, "capextra": capextra, "stop_at": stop_at}
     nontrivial = n >= 2
     return Scenario(enc, style, meta, nontrivial=nontrivial, version="v1" if v1 else "v2")
 
@@ -498,3 +502,65 @@ def monitor_limit(kind):
 LIMIT_RULE = ("random timed scenarios in a synctest bubble: Quantity 1,2,3,7,100; Interval 1us/1ms/1s; input capacity 0..2Q; N in {0,<Q,Q,kQ,kQ+-1,random} "
               "elements; arrival up-front / trickle / stall-then-burst / random gaps; consumer pauses of 0.5..7 Intervals at up to three positions; "
               "non-trivial = at least two elements")
+
+
+def join_stop_variants(sc):
+    """the v1 selects after Stop() have up to three random choices: give the model every resolution"""
+    base = list(sc.enc)
+    # the oracle section is the last list: [..., k, bits...] with k = 0 as generated
+    assert base[-1] == 0
+    out = []
+    for bits in range(8):
+        out.append(base[:-1] + [3, bits & 1, (bits >> 1) & 1, (bits >> 2) & 1])
+    return out
+
+
+def join_stop_generate():
+    def generate(rng, tier):
+        n = 250 if tier == "quick" else 4000
+        return [gen_join_scenario(rng, 2, tier, stop=True) for _ in range(n)]
+    return generate
+
+
+def project_join_stop(sc, vals):
+    tr = JoinTrace(vals)
+    if tr.ambiguous:
+        return SKIP
+    if tr.error is not None:
+        return ["error", tr.error]
+    return ["stop", [(o[0], o[2]) for o in tr.outs], tr.tclose, tr.stop_ret]
+
+
+def monitor_join_stop(sc, ir):
+    if ir.verdict != "ok":
+        what = "implementation verdict %s %s" % (ir.verdict, ir.raw[-300:].replace("\n", " "))
+        if ir.verdict == "hang":
+            what = "Stop() of the join discipline did not return (wall-clock watchdog) " + what
+        return [(what, None)]
+    tr = JoinTrace(ir.vals)
+    m = sc.meta
+    if tr.error is not None:
+        return []
+    fails = []
+    key = "join1-stop:%s" % (sc.enc[2:11],)
+    allvals = [v for it in inputs_of(m) for v in it]
+    got = [v for o in tr.outs for v in o[2]]
+    if tr.stop_ret < 0:
+        fails.append("Stop() has not returned")
+    elif tr.stop_ret != m["stop_at"]:
+        fails.append("Stop() was called at %d and returned only at %d: it waited for the consumer" % (m["stop_at"], tr.stop_ret))
+    if "output-not-closed-when-stop-returned" in tr.flags:
+        fails.append("the output was not closed when Stop() returned")
+    for f in tr.flags:
+        if f != "output-not-closed-when-stop-returned":
+            fails.append("harness flag: " + f)
+    # what was delivered is an in-order duplicate-free subsequence of what was written
+    it = iter(allvals)
+    if not all(any(v == w for w in it) for v in got):
+        fails.append("delivered elements %s are not an in-order duplicate-free subsequence of the written ones" % got)
+    if tr.stop_ret >= 0 and any(o[0] > tr.stop_ret for o in tr.outs):
+        fails.append("a slice was delivered after Stop() had returned")
+    if any(len(o[2]) > m["J"] or not o[2] for o in tr.outs):
+        fails.append("empty or oversize slice")
+    return [("%s [join-v1 J=%d nocopy=%s T=%d icap=%d stop_at=%d prod=%s cons=%s -> outs %s close %d stop_ret %d]" % (
+        f, m["J"], m["nocopy"], m["T"], m["icap"], m["stop_at"], m["prod"], m["cons"], tr.outs, tr.tclose, tr.stop_ret), key) for f in fails[:3]]
